@@ -309,6 +309,25 @@ impl World {
     }
 }
 
+/// Add-only accessors for drivers that extend the operation set in their own file (C27's
+/// ModifySubscription): the session, the server state, and one observed step.
+impl World {
+    pub fn session_handle(&self) -> Arc<RwLock<Session>> { self.session.clone() }
+    pub fn server_state_handle() -> Arc<RwLock<SrvState>> { SERVER_STATE.with(|s| s.clone()) }
+    /// one operation of the shared set, observation appended to `out` (see `step`)
+    pub fn step_observed(&mut self, opix: usize, o: &Op, out: &mut Vec<i128>) { self.step(opix, o, out) }
+    /// marker 7, `status`, the message slot (absent, or three numbers as seq / time / kind of a
+    /// message without data), then the responses and the snapshot: the observation of an
+    /// operation that the caller performed on `session_handle()` itself
+    pub fn observe_external(&mut self, status: i128, slot: Option<[i128; 3]>, out: &mut Vec<i128>) {
+        out.push(7);
+        out.push(status);
+        match slot { None => out.push(0), Some(v) => { out.push(1); out.extend_from_slice(&v); out.push(0); } }
+        self.responses(out);
+        self.snapshot(out);
+    }
+}
+
 impl World {
     /// for simulation-guided generators: run one operation, return false on panic
     pub fn apply(&mut self, opix: usize, o: &Op) -> bool {
